@@ -188,10 +188,11 @@ def mutAcc : Char → Acc
 
 def staticCodes : List String :=
   ["InvalidBucketName", "InvalidArgument", "InvalidRequest", "NotImplemented", "InvalidStorageClass",
-   "IncompleteBody", "UnexpectedContent", "InvalidPart", "PANIC"]
+   "IncompleteBody", "UnexpectedContent", "MalformedXML", "InvalidPartOrder", "PANIC"]
 
-/-- codes that depend on what is on disk (`InvalidPart`: a listed part file does not exist — it is also the input-determined
-    answer to a complete_multipart_upload without a part list) -/
+/-- codes that depend on what is on disk (`InvalidPart`: a listed part file does not exist; since a00e4e8 it is no longer the
+    answer to a complete_multipart_upload without a part list: that is `MalformedXML`, input-determined like
+    `InvalidPartOrder`) -/
 def dynCodes : List String :=
   ["AccessDenied", "InternalError", "EntityTooSmall", "NoSuchKey", "NoSuchBucket", "InvalidPart", "NoSuchUpload"]
 
@@ -362,7 +363,8 @@ def judgeCase (outerB cwd : Bytes) (id : String) (i : Inp) (code : String) (chan
               match pl.err with
               | some .invalidArgument => if code = "InvalidArgument" then "refused-key" else "dyn-error"
               | some .invalidBucketName => "refused-bucket"
-              | some .invalidRequest => if code = "InvalidRequest" then "refused-part-list" else "dyn-error"
+              | some .malformedXML => if code = "MalformedXML" then "refused-part-list" else "dyn-error"
+              | some .invalidPartOrder => if code = "InvalidPartOrder" then "refused-part-list" else "dyn-error"
               | some .noSuchUpload => if code = "NoSuchUpload" then "refused-upload-id" else "dyn-error"
               | some _ => if dynCodes.contains code then "dyn-error" else "refused-other"
               | none =>
